@@ -22,19 +22,26 @@ import (
 type c16Case struct {
 	RPC    string   `json:"rpc"`
 	Fault  mutation `json:"fault"`  // Op "none": clean attempt; "dial-fail": stream cannot be opened
+	Fault2 *mutation `json:"fault2,omitempty"` // thorough: a second, PRNG-chosen corruption
 	Basis  string   `json:"basis"`  // same | behind:k | fork:k | fork-known:k
 	Inputs string   `json:"inputs"` // confirmed | unconfirmed
 	Phase  string   `json:"phase"`  // abort | corrupt | storm | clean-after-storm
 }
 
 func (c c16Case) sig() string {
-	return fmt.Sprintf("%s/%s/%s/%s/%s", c.RPC, c.Phase, c.Fault.String(), c.Basis, c.Inputs)
+	f := c.Fault.String()
+	if c.Fault2 != nil {
+		f += "+" + c.Fault2.String()
+	}
+	return fmt.Sprintf("%s/%s/%s/%s/%s", c.RPC, c.Phase, f, c.Basis, c.Inputs)
 }
 
 // faultPoint is the short stable name of a fault location used in violation
 // signatures (no field paths: those go into the replay case).
 func (c c16Case) faultPoint() string {
 	switch {
+	case c.Fault2 != nil:
+		return "double-corruption"
 	case c.Fault.Op == "none" || c.Fault.Op == "dial-fail":
 		return c.Fault.Op
 	case c.Fault.Path != "":
@@ -355,7 +362,11 @@ func (x *c16Lab) attempt(cse c16Case, noCleanup bool) (succeeded bool) {
 		l.T.SetHook(faultHook(nil, nil, nil, ap))
 		l.T.FailNextDials(1)
 	default:
-		l.T.SetHook(faultHook([]mutation{cse.Fault}, nil, nil, ap))
+		muts := []mutation{cse.Fault}
+		if cse.Fault2 != nil {
+			muts = append(muts, *cse.Fault2)
+		}
+		l.T.SetHook(faultHook(muts, nil, nil, ap))
 	}
 	out := monitoredCall(callDeadline, call)
 	l.T.SetHook(nil)
@@ -595,27 +606,13 @@ var c16AbortPoints = []mutation{
 }
 
 func c16Ops(kind string) []string {
-	switch kind {
-	case "bytes":
-		return []string{"flip0", "zero"}
-	case "currency", "uint":
-		return []string{"flip0", "max"}
-	case "bool":
-		return []string{"flip"}
-	case "string":
-		return []string{"extend"}
-	case "time":
-		return []string{"dec", "zero"}
-	case "byteslice":
-		return []string{"extend", "flip0"}
-	case "slice":
-		return []string{"trunc", "dup"}
-	case "ptr":
-		return []string{"nil"}
-	case "restype":
-		return []string{"retype"}
+	var out []string
+	for _, op := range rhpmitm.OpsFor(kind) {
+		if op != "swap" { // no donor exchange in this check
+			out = append(out, op)
+		}
 	}
-	return nil
+	return out
 }
 
 func (x *c16Lab) corruptTable() []mutation {
@@ -724,11 +721,11 @@ func (x *c16Lab) releaseAll() {
 }
 
 func runC16(r *mon.Run, replay string) {
-	r.Rule("fault table = RPC {form, renew, refresh-full, refresh-partial} x abort point {clean, stream cannot be opened, cut before/after the request, cut before/after the host inputs, injected RPCError, cut before/after the renter signatures, cut before/after / truncated final response} x basis relation {same tip, renter 1..3 blocks behind, renter on a stale fork of depth 1..3 unknown to / known by the host} x renter inputs {confirmed, one unconfirmed output with its parent}; plus every field of every message in both directions (reflection walk) x two operators at the same tip; plus storms of 20 consecutive aborts at one abort point followed by a clean attempt. Two chain managers (host, renter) are kept in sync by the lab except where the basis relation says otherwise. Enumerated completely; a case is non-trivial when it is a clean/abort case or its corruption changed the wire bytes.")
+	r.Rule("fault table = RPC {form, renew, refresh-full, refresh-partial} x abort point {clean, stream cannot be opened, cut before/after the request, cut before/after the host inputs, injected RPCError, cut before/after the renter signatures, cut before/after / truncated final response} x basis relation {same tip, renter 1..3 blocks behind, renter on a stale fork of depth 1..3 unknown to / known by the host} x renter inputs {confirmed, one unconfirmed output with its parent}; plus every field of every message in both directions (reflection walk) x operator {flip low/high bit, zero, max, +1, -1, truncate, extend, duplicate, swap neighbours, nil pointer, other resolution type} at the same tip; plus storms of 20 consecutive aborts at one abort point followed by a clean attempt; thorough adds every abort point at every basis relation and PRNG double corruptions. Two chain managers (host, renter) are kept in sync by the lab except where the basis relation says otherwise. Enumerated completely; a case is non-trivial when it is a clean/abort case or its corruption changed the wire bytes.")
 	r.Assume("core consensus and rhp/v4 cost functions are trusted; the in-repo EphemeralContractor/WalletStore are the host's and wallets' stores")
 	r.Assume("a failure seen by the renter after its signatures reached the host may legitimately coincide with a host-side commit (the final response cannot be made atomic); it is then checked as a host-side success")
 	r.Extra("exhaustive", true)
-	r.Extra("exhaustive_over", "the enumerated table (RPC x abort point x basis relation x input kind) and (RPC x message x field x operator) for the recorded message shapes")
+	r.Extra("exhaustive_scope", "the enumerated table (RPC x abort point x basis relation x input kind) and (RPC x message x field x operator) for the recorded message shapes")
 
 	var only *c16Case
 	if replay != "" {
@@ -755,8 +752,11 @@ func runC16(r *mon.Run, replay string) {
 	}
 	var jobs []job
 	for _, rpc := range rpcs {
-		for _, part := range []string{"abort-same", "abort-basis-a", "abort-basis-b", "corrupt-R", "corrupt-H", "storm"} {
+		for _, part := range []string{"abort-same", "abort-basis-a", "abort-basis-b", "corrupt-R0", "corrupt-R1", "corrupt-H0", "corrupt-H1a", "corrupt-H1b", "corrupt-double", "storm"} {
 			if only != nil && only.RPC != rpc {
+				continue
+			}
+			if part == "corrupt-double" && !r.Thorough() {
 				continue
 			}
 			if flt := os.Getenv("VERIF_C16_JOBS"); flt != "" && !strings.Contains(flt, rpc+":"+part) {
@@ -800,13 +800,30 @@ func runC16(r *mon.Run, replay string) {
 					}
 				}
 			}
-		case "corrupt-R", "corrupt-H":
-			dir := j.part[len(j.part)-1:]
+		case "corrupt-R0", "corrupt-R1", "corrupt-H0", "corrupt-H1a", "corrupt-H1b":
+			dir, msg := j.part[8:9], int(j.part[9]-'0')
+			n := 0
 			for _, mu := range x.corruptTable() {
-				if mu.Dir != dir {
+				if mu.Dir != dir || mu.Msg != msg {
+					continue
+				}
+				n++
+				// the final host message is the largest: its table is split over two labs
+				if len(j.part) == 11 && (n%2 == 0) != (j.part[10] == 'a') {
 					continue
 				}
 				x.attempt(c16Case{RPC: j.rpc, Fault: mu, Basis: "same", Inputs: "confirmed", Phase: "corrupt"}, false)
+			}
+		case "corrupt-double":
+			tbl := x.corruptTable()
+			rng := r.RNG(uint64(3000 + i))
+			for k := 0; k < 250 && len(tbl) > 1; k++ {
+				a, b := tbl[rng.IntN(len(tbl))], tbl[rng.IntN(len(tbl))]
+				if a == b {
+					continue
+				}
+				x.attempt(c16Case{RPC: j.rpc, Fault: a, Fault2: &b, Basis: "same", Inputs: "confirmed", Phase: "corrupt"}, false)
+				r.Count("double_corruptions", 1)
 			}
 		case "storm":
 			for _, p := range c16AbortPoints {
